@@ -401,10 +401,17 @@ func (d *cbDec) getArrayLength() (int, error) {
 	}
 	return v, err
 }
+
+// see cdGuardCount: counts the pinned decoder does not bound are refused when they exceed the remaining bytes
+var errCbGuard = fmt.Errorf("harness guard: element count exceeds the remaining bytes")
+
 func (d *cbDec) getCompactArrayLength() (int, error) {
 	b := d.inner.off
 	v, err := d.inner.getCompactArrayLength()
 	if err == nil {
+		if v > d.inner.remaining() {
+			return 0, errCbGuard
+		}
 		d.rec(b, cbLay{"vi", d.inner.off - b})
 	}
 	return v, err
@@ -501,6 +508,9 @@ func (d *cbDec) fixedArray(b int, pk string, n, w int, err error) {
 }
 func (d *cbDec) getCompactInt32Array() ([]int32, error) {
 	b := d.inner.off
+	if err := cdGuardCount(d.inner, true); err != nil {
+		return nil, err
+	}
 	v, err := d.inner.getCompactInt32Array()
 	d.fixedArray(b, "vi", len(v), 4, err)
 	return v, err
@@ -519,6 +529,9 @@ func (d *cbDec) getInt64Array() ([]int64, error) {
 }
 func (d *cbDec) getStringArray() ([]string, error) {
 	b := d.inner.off
+	if err := cdGuardCount(d.inner, false); err != nil {
+		return nil, err
+	}
 	v, err := d.inner.getStringArray()
 	if err == nil {
 		lay := []cbLay{{"f4", 4}}
@@ -1470,6 +1483,7 @@ func cbRecordSubjects(rng *rand.Rand, mode int) []*cbSubject {
 }
 
 func TestVerifCodecBody(t *testing.T) {
+	cdLimitMemory()
 	rec := vOpenRec(t, "trace.ndjson")
 	sum := &cbSummary{Runs: map[string]int{}, Skipped: map[string]int{}, Panicked: map[string]string{}, seen: map[string]bool{}}
 	fills := 4
